@@ -5,11 +5,15 @@ import json, os, subprocess, sys, time
 V = os.path.dirname(os.path.dirname(os.path.abspath(__file__)))
 rows = []
 only = sys.argv[1:]
+cache_p = os.path.join(V, 'seeded', 'results.json')
+cache = json.load(open(cache_p)) if os.path.exists(cache_p) else {}
 for n in sorted(os.listdir(os.path.join(V, 'seeded'))):
     d = os.path.join(V, 'seeded', n)
     if not os.path.isdir(d) or not os.path.exists(os.path.join(d, 'patch.diff')):
         continue
     if only and not any(n.startswith(o) for o in only):
+        if n in cache:
+            rows.append(tuple(cache[n]))
         continue
     meta = json.load(open(os.path.join(d, 'meta.json'))) if os.path.exists(os.path.join(d, 'meta.json')) else {}
     t = time.time()
@@ -26,6 +30,8 @@ for n in sorted(os.listdir(os.path.join(V, 'seeded'))):
         verdict = 'MISSED'
     rows.append((n, n.split('-')[0].upper(), verdict, round(time.time() - t), (meta.get('summary') or '')[:160].replace('|', '/'), (meta.get('needs') or '')[:160].replace('|', '/')))
     print(rows[-1][:4], flush=True)
+    cache[n] = list(rows[-1])
+json.dump(cache, open(cache_p, 'w'), indent=1)
 with open(os.path.join(V, 'seeded', 'RESULTS.md'), 'w') as f:
     f.write('# Seeded changes and what the checks make of them\n\nEach change compiles, keeps the pinned test-suite green (190/190) and has a demonstration that fails with it '
             '(confirmed by tools/confirm_seed.sh in a scratch worktree). `tools/seed_table.py` re-runs this table.\n\n')
